@@ -30,6 +30,81 @@ use crate::dns::outquery;
 #[cfg(test)]
 mod test;
 
+/// Verification hooks: drive the private cache functions under tokio's paused clock.
+#[cfg(feature = "verif")]
+pub mod verif {
+    use super::*;
+
+    pub struct Harness {
+        handler: CacheHandler,
+        cache: Cache,
+    }
+
+    fn key(qname: &dnspkt::Domain, qtype: dnspkt::Type, edns_do: bool, cd: bool) -> CacheKey {
+        CacheKey {
+            qname: qname.clone(),
+            qtype,
+            edns_do,
+            cd,
+        }
+    }
+
+    impl Harness {
+        #[allow(clippy::new_without_default)]
+        pub fn new() -> Self {
+            Self {
+                handler: CacheHandler {
+                    next: outquery::OutQuery::new(),
+                    cache: Arc::new(RwLock::new(Cache::new())),
+                },
+                cache: Cache::new(),
+            }
+        }
+        /// `calculate_expiry` of an upstream reply.
+        pub fn calculate_expiry(&self, reply: &dnspkt::DNSPkt) -> Duration {
+            self.handler.calculate_expiry(&Ok(reply.clone()))
+        }
+        /// `insert_cache_entry` (unconditional, as the private function is).
+        pub fn insert(
+            &mut self,
+            qname: &dnspkt::Domain,
+            qtype: dnspkt::Type,
+            edns_do: bool,
+            cd: bool,
+            reply: &dnspkt::DNSPkt,
+            expiry: Duration,
+        ) {
+            self.handler.insert_cache_entry(
+                &mut self.cache,
+                key(qname, qtype, edns_do, cd),
+                &Ok(reply.clone()),
+                expiry,
+            );
+        }
+        /// `get_entry` at the current (virtual) instant; errors are flattened to their text.
+        pub fn lookup(
+            &self,
+            qname: &dnspkt::Domain,
+            qtype: dnspkt::Type,
+            edns_do: bool,
+            cd: bool,
+        ) -> Option<Result<dnspkt::DNSPkt, String>> {
+            CacheHandler::get_entry(&self.cache, &key(qname, qtype, edns_do, cd), Instant::now())
+                .map(|r| r.map_err(|e| e.to_string()))
+        }
+        /// One sweep of `expire`.
+        pub fn expire(&mut self) {
+            CacheHandler::expire(&mut self.cache, Instant::now());
+        }
+        pub fn len(&self) -> usize {
+            self.cache.len()
+        }
+        pub fn is_empty(&self) -> bool {
+            self.cache.is_empty()
+        }
+    }
+}
+
 lazy_static::lazy_static! {
     static ref DNS_CACHE: prometheus::IntCounterVec =
         prometheus::register_int_counter_vec!("dns_cache",
